@@ -28,6 +28,8 @@ are kept.
 
 Round 6: (b') a described field is listed under the attribute it reads and writes; __delete__
 removes no slot; builder step order also from a table of step names.
+Round 7: slot names assigned instead of accumulated in the builder's loop (loop_overwrites);
+enumerate-indexed hook calls.
 """
 import ast
 
